@@ -90,8 +90,10 @@ class Report:
             "violations": len(self.violations),
             "known_findings_hit": sorted(self.known_hit),
         }
-        os.makedirs(os.path.join(VERIF, "evidence"), exist_ok=True)
-        with open(os.path.join(VERIF, "evidence", f"{self.pid}.json"), "w") as f:
+        # runs against a scratch worktree (VERIF_REPO set by tools/run_seeded.py) must not overwrite the evidence of /repo
+        evdir = "evidence" if os.environ.get("VERIF_REPO", "/repo").rstrip("/") == "/repo" else os.path.join(".scratch", "evidence_other_tree")
+        os.makedirs(os.path.join(VERIF, evdir), exist_ok=True)
+        with open(os.path.join(VERIF, evdir, f"{self.pid}.json"), "w") as f:
             json.dump(ev, f, indent=1, default=str)
         LAST["keys"] = [v[0] for v in self.violations]
         LAST["known"] = sorted(self.known_hit)
